@@ -206,8 +206,58 @@ def readname_jobs(tier):
                 functions=["readname_loop"]) for pl, d in cells]
 
 
+CLIENT_UNITS = ["dns.c", "read.c", "encoding.c", "base32.c", "base64.c", "base64u.c", "base128.c"]
+HS_NAMES = {1: "version", 2: "login", 3: "switch-codec", 4: "switch-downenc", 5: "upenctest", 6: "downenc-qtype-edns0",
+            7: "try-lazy", 8: "fragsize-check", 9: "raw-udp", 10: "lazyoff", 11: "set-fragsize"}
+
+
+def client_jobs(tier):
+    q = tier == "quick"
+    insz = 48
+    sub = [(r"\[4096\]", "[%d]" % insz)]
+    jobs = []
+    ob = 24 if q else 40
+    cells = [("NULL", 10, None), ("raw", 10, None)] + \
+            [("TXT-%s" % c, 16, c) for c in "tsuvr"] + [("TXT-other", 16, "?")] + \
+            [("CNAME-%s" % c, 5, c) for c in "hijk"]
+    # MX/SRV multi-name reassembly loop of read_dns_withq: no verdict within 12 GB even for 9-byte replies
+    # (symbolic offsets into two buffers x 9 decoders per part) -> not covered, stated in DESIGN.md
+    ob0 = ob
+    for cname, t, codec in cells:
+        ob = 9 if t in (15, 33) else ob0       # the MX/SRV reassembly loop decodes every part: smaller reply bound
+        defs = {"MODE": 1, "OB": ob, "RB": 24, "NREPLY": 1, "TSEL": t}
+        if codec:
+            defs["CODEC"] = "'%s'" % codec
+        if cname == "raw":
+            defs["RAWCONN"] = 1
+        jobs.append(Job("client-reply-reader-%s" % cname, "C06_client.c", defs=defs,
+                        units=CLIENT_UNITS, hunits=SERVER_HUNITS + ["vlibc_mem.c"], unit_defs=READ_LOOPCPY,
+                        scale=48 if t in (15, 33) else 96, subst=sub,
+                        unwind=max(ob, 24) + 4,
+                        loops={"base32_reverse_init": 130, "base64_reverse_init": 130, "base64u_reverse_init": 130,
+                               "base128_reverse_init": 130, "read_dns_withq": ob // 5 + 2, "strlen": ob + 2,
+                               "inline_undotify": ob + 2, "vc_dns_decode": ob + 1},
+                        timeout=1500,
+                        desc="read_dns_withq with the record decoder replaced by its contract: dns_namedec, MX/SRV reassembly, raw frames",
+                        bounds="decoded reply 0..%d bytes arbitrary, record type/codec letter per cell, raw datagram 0..24 bytes, "
+                               "64 KiB locals scaled to 96" % ob,
+                        functions=["read_dns_withq", "dns_namedec", "unpack_data", "inline_undotify", "base*_decode"]))
+    for hs in sorted(HS_NAMES):
+        jobs.append(Job("client-handshake-%s" % HS_NAMES[hs], "C06_client.c",
+                        defs={"MODE": 2, "HS": hs, "OB": insz, "RB": 24 if hs != 9 else insz, "NREPLY": 2},
+                        units=CLIENT_UNITS, hunits=SERVER_HUNITS + ["vlibc_mem.c"], unit_defs=READ_LOOPCPY, scale=96, subst=sub,
+                        unwind=insz + 20, loops={"base32_reverse_init": 130, "strncmp": 12, "strncat": 132, "strcat": 140,
+                                                 "strlen": 140, "memset": 300, "handshake_waitdns.2": 4,
+                                                 "handshake_waitdns.1": 4},
+                        timeout=1500, object_bits=12,
+                        desc="handshake parser(s) '%s' through the real handshake_waitdns/read_dns_withq, decoder = contract" % HS_NAMES[hs],
+                        bounds="2 arbitrary replies (length -3..%d = sizeof reply buffer after scaling 4096->%d, arbitrary id/type/first char/rcode)" % (insz, insz),
+                        functions=["handshake_*", "handshake_waitdns", "read_dns_withq"]))
+    return jobs
+
+
 def c06_jobs(tier):
-    return decode_jobs(tier, checks=True, tag="-safe")[1:]
+    return decode_jobs(tier, checks=True, tag="-safe")[1:] + client_jobs(tier)
 
 
 def c12_jobs(tier):
